@@ -268,6 +268,14 @@ Theorem C01_read_stable_noop : forall a b k t, oracle_ts (a ++ b) = true -> stab
 Proof. exact read_stable_e. Qed.
 Print Assumptions C01_read_stable_noop.
 
+(* the history oracle over ONE joint trace with many readers: every observation is an own write, or a point get served at
+   some cut A | B of the trace under the rules of C01_twopc_read_stable, or of C01_pushed_read_stable; then the checker run
+   on the FINAL committed history accepts them all - no stability predicate, no oracle-order hypothesis *)
+Theorem C01_history_oracle_sound_trace : forall tr obs, oracle_ts (cmds_of tr) = true -> Forall (served_trace tr) obs ->
+  si_ok (full_history (run (cmds_of tr))) obs = true.
+Proof. exact history_oracle_sound_trace. Qed.
+Print Assumptions C01_history_oracle_sound_trace.
+
 (* the client glue (getTxnStatus, differentially tested against the code by driver `sistatus`): only cacheable statuses
    are ever memoised; a hit answers the memoised status without a request; a miss sends one and memoises iff cacheable;
    cacheable = committed or rolled back *)
@@ -415,6 +423,12 @@ Example ex_pushed :
   /\ met_rule (run (cmds_of ex_push_A)) 2 (T 5) (flat_map cmd_pairs (cmds_of ex_push_B)) = true
   /\ read_at (run (cmds_of (ex_push_A ++ ex_push_B))) 2 (T 5) = None /\ read_at (run (cmds_of (ex_push_A ++ ex_push_B))) 2 (T 8) = Some 44.
 Proof. vm_compute. repeat split. Qed.
+Example ex_served_trace : served_trace (ex_push_A ++ ex_push_B) (mkObs (T 5) 2 None None)
+  /\ si_ok (full_history (run (cmds_of (ex_push_A ++ ex_push_B)))) [mkObs (T 5) 2 None None; mkObs (T 8) 2 None (Some 44)] = true.
+Proof.
+  split; [|vm_compute; reflexivity].
+  eapply (stt_push _ _ ex_push_A ex_push_B [T 4] None 1 (T 4)); try reflexivity. vm_compute. discriminate.
+Qed.
 (* a primary commit below the pushed min_commit_ts is refused as a whole - a no-op - also for the secondary in the batch *)
 Example ex_pushed_refused :
   is_noop (run (cmds_of ex_push_A)) (Commit [1; 2] (T 4) (T 4 + 1)) = true
